@@ -12,7 +12,7 @@
    vr says which revision of the code is modelled; [code_variant] (= all six `fix:` commits of
    /repo/rapidproto in) is the one the correspondence check ties to the implementation. Theorems that
    need a repair state it as a hypothesis on vr and are instantiated at [code_variant] below. *)
-From CP Require Import RapidGen DecodeTotal RapidGenProofs.
+From CP Require Import DecodeTotal Extra RapidGen RapidGenProofs.
 Local Open Scope N_scope.
 
 (* termination: fuel depthLimit + 2 suffices for every schema (recursive ones included: recursion
@@ -66,6 +66,11 @@ Proof. intros o sch ann. apply RapidGenProofs.gen_enum_declared. reflexivity. Qe
 Theorem gen_no_empty_lists : forall vr o sch ann mid m,
   rapid_in_range vr o sch ann mid m = true -> deep sch ann (no_empty_preds vr o ann) top_fuel 1 INoField mid m = true.
 Proof. exact RapidGenProofs.gen_no_empty_lists. Qed.
+(* ... and at ANY depth no repeated field holds an empty non-nil list (the state the option exists to
+   prevent: a struct that differs from its decoded form) *)
+Theorem gen_no_empty_nonnil : forall o sch ann mid m,
+  rapid_in_range code_variant o sch ann mid m = true -> deep sch ann (no_empty_nonnil_preds o) top_fuel 1 INoField mid m = true.
+Proof. intros o sch ann. apply RapidGenProofs.gen_no_empty_nonnil. reflexivity. Qed.
 Theorem gen_disallow_nil : forall vr o sch ann mid m,
   rapid_in_range vr o sch ann mid m = true -> deep sch ann (disallow_nil_preds o ann) top_fuel 1 INoField mid m = true.
 Proof. exact RapidGenProofs.gen_disallow_nil. Qed.
@@ -75,6 +80,12 @@ Proof. exact RapidGenProofs.gen_no_nil_elements. Qed.
 Theorem gen_field_mapper : forall vr o sch ann mid m,
   rapid_in_range vr o sch ann mid m = true -> deep sch ann (mapper_preds o) top_fuel 1 INoField mid m = true.
 Proof. exact RapidGenProofs.gen_field_mapper. Qed.
+
+(* messages nest at most depthLimit + 2 = 12 levels deep: the root, 10 levels below it, and a singular
+   Any field of a depth-10 message (setFieldValue calls genAny without the depth test; its payload is empty) *)
+Theorem gen_depth_bounded : forall vr o sch ann, fmap_typed o ->
+  forall mid m, rapid_in_range vr o sch ann mid m = true -> (val_depth m <= 12)%nat.
+Proof. exact RapidGenProofs.gen_depth_bounded. Qed.
 
 (* the traversal is monotone: the shape all of the above share *)
 Theorem deep_monotone : forall sch ann (P Q : preds),
@@ -117,7 +128,7 @@ Proof. vm_compute. repeat split; reflexivity. Qed.
 Example regression_enum_any :
   gen code_variant o_plain sch_en ann_en 0 [1; 0; 0] = Ok (VMsg [VInt 4] []) /\
   rapid_in_range code_variant o_plain sch_en ann_en 0 (VMsg [VInt 0] []) = false /\
-  gen code_variant o_plain sch_anyl ann_anyl 0 [1; 1; 1] = Ok (VMsg [VList []] []) /\
+  gen code_variant o_plain sch_anyl ann_anyl 0 [1; 1; 1] = Ok (VMsg [VNil] []) /\
   gen code_variant o_any1 sch_anyl ann_anyl 1 [1; 0; 1; 2] = Ok any_regr /\
   rapid_in_range code_variant o_any1 sch_anyl ann_anyl 1 any_regr = true.
 Proof. vm_compute. repeat split; reflexivity. Qed.
